@@ -386,6 +386,73 @@ def item_with_frames(repo):
     return out
 
 
+def _calls_in_order(fn, pred):
+    """calls satisfying pred, in source order"""
+    out = [n for n in ast.walk(fn) if isinstance(n, ast.Call) and pred(n)]
+    return sorted(out, key=lambda n: (n.lineno, n.col_offset))
+
+
+def item_excel_layout(repo):
+    """C09: the skeleton of the openpyxl writer / reader that the Grid model mirrors (source text, via ast)."""
+    tree = _parse(repo, "pdtable/io/_excel_openpyxl.py")
+    helper = _parse(repo, "pdtable/io/_excel_write_helper.py")
+    excel = _parse(repo, "pdtable/io/excel.py")
+    # _append_table_to_openpyxl_worksheet: what is appended, in source order
+    app = _find_func(tree, "_append_table_to_openpyxl_worksheet")
+    appended = [ast.unparse(c.args[0]) for c in _calls_in_order(
+        app, lambda c: isinstance(c.func, ast.Attribute) and c.func.attr == "append"
+        and ast.unparse(c.func.value) == "ws")]
+    # _style_tables_in_worksheet: offsets and the index arithmetic
+    st = _find_func(tree, "_style_tables_in_worksheet")
+    ints, exprs = {}, {}
+    for n in ast.walk(st):
+        if isinstance(n, ast.Assign) and len(n.targets) == 1:
+            tgt = ast.unparse(n.targets[0]).strip("()")
+            if isinstance(n.value, ast.Constant) and isinstance(n.value.value, int) and tgt.startswith("num_"):
+                ints[tgt] = n.value.value
+            if tgt in ("true_num_cols", "true_num_rows", "table_rows", "table_name_cells", "destination_cells",
+                       "column_name_cells", "column_unit_cells", "value_cells", "true_num_cols, true_num_rows"):
+                exprs.setdefault(tgt, []).append(ast.unparse(n.value))
+        if isinstance(n, ast.AugAssign) and ast.unparse(n.target) == "i_start":
+            exprs.setdefault("i_start +=", []).append(ast.unparse(n.value))
+    # _style_cells: the cell attributes the loop assigns
+    sc = _find_func(tree, "_style_cells")
+    writes = []
+    for n in ast.walk(sc):
+        if isinstance(n, (ast.Assign, ast.AugAssign, ast.AnnAssign)):
+            for t in (n.targets if isinstance(n, ast.Assign) else [n.target]):
+                if isinstance(t, ast.Attribute) and ast.unparse(t.value) == "cell":
+                    writes.append(t.attr)
+    # any other place of the module assigning `.value` of something
+    value_writes = sorted({ast.unparse(t) for n in ast.walk(tree) if isinstance(n, ast.Assign)
+                           for t in n.targets if isinstance(t, ast.Attribute) and t.attr == "value"})
+    # read_sheets: what is iterated and what is yielded
+    rs = _find_func(tree, "read_sheets")
+    iters = [ast.unparse(n.iter) for n in ast.walk(rs) if isinstance(n, ast.For)]
+    yields = [ast.unparse(n.value) for n in ast.walk(rs) if isinstance(n, ast.Yield)]
+    # write_excel_openpyxl: the sheet loop
+    wx = _find_func(tree, "write_excel_openpyxl")
+    wloops = [ast.unparse(n.iter) for n in ast.walk(wx) if isinstance(n, ast.For)]
+    dims = [ast.unparse(c.args[0]) for c in _calls_in_order(
+        wx, lambda c: isinstance(c.func, ast.Attribute) and c.func.attr == "append"
+        and ast.unparse(c.func.value) == "table_dimensions")]
+    # helpers: header f-strings and the destination join
+    hd = _find_func(helper, "_table_header")
+    headers = [ast.unparse(n.value) for n in ast.walk(hd) if isinstance(n, ast.Return)]
+    headers_test = [ast.unparse(n.test) for n in ast.walk(hd) if isinstance(n, ast.If)]
+    dj = _find_func(helper, "_table_destinations")
+    dest = [ast.unparse(n.value) for n in ast.walk(dj) if isinstance(n, ast.Return)]
+    # read_excel: how the sheet-name pattern is applied
+    rx = _find_func(excel, "read_excel")
+    nm = _find_func(rx, "name_matches")
+    pattern_calls = [ast.unparse(c) for c in _calls_in_order(
+        nm, lambda c: isinstance(c.func, ast.Attribute) and ast.unparse(c.func.value) == "sheet_name_pattern")]
+    return {"appended": appended, "ints": sorted(ints.items()), "exprs": sorted((k, v) for k, v in exprs.items()),
+            "style_writes": sorted(set(writes)), "value_writes": value_writes, "read_iters": iters,
+            "read_yields": yields, "write_loops": wloops, "dims": dims, "headers": headers,
+            "headers_test": headers_test, "dest": dest, "pattern_calls": pattern_calls}
+
+
 ITEMS = {
     "marker_pattern": item_marker_pattern,
     "missing_markers": item_missing_markers,
@@ -401,6 +468,7 @@ ITEMS = {
     "loader_consts": item_loader_consts,
     "include_directive": item_include_directive,
     "with_frames": item_with_frames,
+    "excel_layout": item_excel_layout,
 }
 
 ANCHORED = {
@@ -521,6 +589,24 @@ def render(vals) -> str:
         + "], [" + ", ".join(lean_str(x) for x in bare) + "], [" + ", ".join(lean_str(x) for x in fors)
         + "], [" + ", ".join(lean_str(x) for x in closes) + "])"
         for fn, pts, bare, fors, closes in vals["with_frames"]) + "]")
+    L.append("")
+    ex = vals["excel_layout"]
+    sl = lambda xs: "[" + ", ".join(lean_str(x) for x in xs) + "]"
+    L.append("/-- C09: skeleton of the openpyxl writer / reader (source text of the relevant expressions) -/")
+    L.append(f"def excelAppended : List String := {sl(ex['appended'])}")
+    L.append("def excelInts : List (String × Nat) := [" + ", ".join(f"({lean_str(k)}, {int(v)})" for k, v in ex["ints"]) + "]")
+    L.append("def excelExprs : List (String × List String) := [" + ", ".join(
+        f"({lean_str(k)}, {sl(v)})" for k, v in ex["exprs"]) + "]")
+    L.append(f"def excelStyleWrites : List String := {sl(ex['style_writes'])}")
+    L.append(f"def excelValueWrites : List String := {sl(ex['value_writes'])}")
+    L.append(f"def excelReadIters : List String := {sl(ex['read_iters'])}")
+    L.append(f"def excelReadYields : List String := {sl(ex['read_yields'])}")
+    L.append(f"def excelWriteLoops : List String := {sl(ex['write_loops'])}")
+    L.append(f"def excelDims : List String := {sl(ex['dims'])}")
+    L.append(f"def excelHeaders : List String := {sl(ex['headers'])}")
+    L.append(f"def excelHeadersTest : List String := {sl(ex['headers_test'])}")
+    L.append(f"def excelDest : List String := {sl(ex['dest'])}")
+    L.append(f"def excelPatternCalls : List String := {sl(ex['pattern_calls'])}")
     L.append("")
     L.append("end Pdt.Gen")
     return "\n".join(L) + "\n"
